@@ -6,6 +6,11 @@
      cluster : how many refused hosts precede the scripted upstream (request-round-robin order), or "all" refused
      script  : behaviour of the scripted upstream per arrival (last repeats):
                ok | s503 | close | hang | gate (answers 200 when the driver says) | gs503 (answers 503 when the driver says) | gateclose
+               | okclose (answers 200 and closes the connection behind the answer)
+               | gokclose / gokrst (scripted stream layer only: answers 200 when the driver says, and resets the stream of
+                 the same attempt when the driver says again - ConnectionTermination / StreamRemoteReset)
+     layer   : absent = the real stream layer of the protocol and a scripted upstream behind it;  "script" = the scripted
+               stream layer of the driver (harness/cmd/c03/scriptlayer.go) directly under the real proxy
      try     : per-try timeout configured (40 ms) besides the global timeout (120 ms)
      hold    : gate point at which one goroutine of the proxy is held ...
      during  : ... while this happens completely:  gtimer | ptimer | upresp | upclose | clientreset | none
@@ -109,7 +114,44 @@ StaleWake(k) == << "hold:ds.pe#" \o k, "hold:us.reset.flagged", "hold:ds.wait",
                    "arrive:ds.wait", "release:us.reset.flagged", "pause:5", "release:ds.wait", "pause:5", "do:upresp" >>
 StaleWakeCases == { [cluster |-> cl, script |-> sc, try |-> TRUE, hold |-> "none", during |-> "none", hold2 |-> "none", body |-> FALSE,
                      steps |-> StaleWake(k)] : cl \in {"direct", "r1"}, sc \in {<<"hang", "gate">>, <<"hang", "hang">>}, k \in {"5", "6", "7"} }
-StepCases == LateResetCases \cup ResetVsResponseCases \cup StaleWakeCases \cup { [cluster |-> cl, script |-> sc, try |-> (t = "ptimer"), hold |-> "none", during |-> "none", hold2 |-> "none", body |-> FALSE,
+(* ---- an attempt with TWO events (DownstreamImpl behaviour "okclose"): the upstream answers, and the stream of the same
+   attempt is reset behind the answer before the worker has forwarded anything.  Read off the TLC counterexample of
+   DownstreamImpl with defect "AnsweredCountsAsStarted": the worker is held in the processError before its wait (ds.wait
+   is the next gate), the answer is taken (us.recv), the reset is taken (us.reset), the worker goes on and finds both.
+   Variants: the worker is held as it wakes up for the answer (ds.woken), or after the send filters of the answer ran
+   (ds.pe#8 = the processError of the UpFilter phase of a request without body on the direct cluster).  Owed: exactly one
+   reply - the error reply of the reset or the answer of the retry; never a reset of the client's stream.
+   The shipped stream layers destroy a client stream before they hand its answer over, so this order needs a resetter
+   inside BaseStream.ResetStream's test-then-lock window: the scripted stream layer delivers it on command. *)
+AnswerThenReset(g) ==
+  IF g = "ds.wait" THEN << "hold:ds.wait", "arrive:ds.wait", "do:upanswer", "await:us.recv", "do:upreset", "await:us.reset", "release:ds.wait" >>
+  ELSE IF g = "ds.woken" THEN << "hold:ds.woken", "do:upanswer", "arrive:ds.woken", "do:upreset", "await:us.reset", "release:ds.woken" >>
+  ELSE << "hold:ds.pe#8", "do:upanswer", "arrive:ds.pe", "do:upreset", "await:us.reset", "release:ds.pe" >>
+ScriptCase(cl, sc, t, b, st) == [cluster |-> cl, script |-> sc, try |-> t, hold |-> "none", during |-> "none", hold2 |-> "none", body |-> b,
+                                 layer |-> "script", steps |-> st]
+AnswerThenResetCases ==
+  { ScriptCase(cl, sc, t, FALSE, AnswerThenReset(g)) : cl \in {"direct", "r1"}, t \in BOOLEAN, g \in {"ds.wait", "ds.woken"},
+                                                       sc \in {<<"gokclose", "ok">>, <<"gokclose", "hang">>, <<"gokrst", "ok">>} }
+  \cup { ScriptCase("direct", sc, TRUE, FALSE, AnswerThenReset("ds.pe#8")) : sc \in {<<"gokclose", "ok">>, <<"gokrst", "ok">>} }
+  \cup { ScriptCase("direct", sc, TRUE, TRUE, AnswerThenReset(g)) : g \in {"ds.wait", "ds.woken"}, sc \in {<<"gokclose", "ok">>, <<"gokrst", "ok">>} }
+(* the same two events with nothing held: back to back on the scripted layer (the worker may or may not have forwarded the
+   answer when the reset lands), and on the real layers an upstream that closes the connection behind its answer *)
+OkCloseCases ==
+  { [cluster |-> cl, script |-> sc, try |-> t, hold |-> "none", during |-> "none", hold2 |-> "none", body |-> FALSE, layer |-> "script"] :
+      cl \in {"direct", "r1"}, t \in BOOLEAN, sc \in {<<"okclose">>, <<"okclose", "ok">>} }
+  \cup { [cluster |-> cl, script |-> sc, try |-> t, hold |-> "none", during |-> "none", hold2 |-> "none", body |-> FALSE] :
+      cl \in {"direct", "r1"}, t \in BOOLEAN, sc \in {<<"okclose">>, <<"okclose", "ok">>, <<"s503", "okclose">>} }
+(* Read off the TLC counterexample of DownstreamImpl with defect "PerTryTimerSurvivesRetry" (invariant
+   PerTryTimerOnlyWhileTryOpen): an attempt ends with a retryable outcome that is not its per-try timeout (503 under
+   retry_on, refused connection), the retry is admitted, and the worker is held inside the set-up of the next attempt
+   until the per-try timeout of the attempt that has ENDED is over (40 ms) - then it goes on, long before the global
+   timeout.  No per-try timeout may be applied meanwhile (RequestLifecycleTrace: per-try-timeout-of-ended-attempt); the
+   next attempt is sent and answered, one reply. *)
+PastTryTimeout(g) == << "hold:" \o g, "arrive:" \o g, "pause:55", "release:" \o g >>
+PastTryTimeoutCases == { [cluster |-> x[1], script |-> x[2], try |-> TRUE, hold |-> "none", during |-> "none", hold2 |-> "none", body |-> FALSE,
+                          steps |-> PastTryTimeout(g)] : x \in {<<"direct", <<"s503", "ok">>>>, <<"r1", <<"ok">>>>, <<"r1", <<"s503", "ok">>>>},
+                                                         g \in {"ds.retry.begin", "ds.retry.chosen"} }
+StepCases == LateResetCases \cup ResetVsResponseCases \cup StaleWakeCases \cup AnswerThenResetCases \cup OkCloseCases \cup PastTryTimeoutCases \cup { [cluster |-> cl, script |-> sc, try |-> (t = "ptimer"), hold |-> "none", during |-> "none", hold2 |-> "none", body |-> FALSE,
                 steps |-> StaleTimer(t)] : cl \in {"r1", "r2"}, sc \in {<<"ok">>, <<"hang">>, <<"s503", "ok">>, <<"close">>}, t \in {"ptimer", "gtimer"} }
 
 (* ---- the shape of the request as a dimension of the runs (RequestShape.tla, model: RequestForward.tla) ----
